@@ -57,7 +57,16 @@ JudgeReconf(l) ==
   /\ l.kind = "ok"
   /\ l.effects = <<[v |-> 7, thr |-> l.obOn]>>
   /\ l.delivered = <<[v |-> 7, thr |-> l.subOn]>>
-JudgePart(l) == IF l.part = "conc" THEN JudgeConc(l) ELSE JudgeReconf(l)
+\* ---- two compositions branching off one prefix of depth n (effect 0 yields 1000, continuation j adds 1 and logs j, the left branch adds
+\* 100 and logs 100, the right one adds 200 and logs 200): each evaluates to its own composition, callbacks in composition order
+JudgeBranch(l) ==
+  LET side(s) == SelectSeq(l.effects, LAMBDA e : e.thr = s)
+      pre == [i \in 1..(l.n + 1) |-> i - 1] IN
+  /\ l.kind = "ok"
+  /\ l.delivered = <<[v |-> 1000 + l.n + 100, thr |-> "left"], [v |-> 1000 + l.n + 200, thr |-> "right"]>>
+  /\ [i \in DOMAIN side("left") |-> side("left")[i].v] = pre \o <<100>>
+  /\ [i \in DOMAIN side("right") |-> side("right")[i].v] = pre \o <<200>>
+JudgePart(l) == IF l.part = "conc" THEN JudgeConc(l) ELSE IF l.part = "branch" THEN JudgeBranch(l) ELSE JudgeReconf(l)
 
 \* ---- the monad laws on the denotation (checked by TLC over the bounded program space in MC_MonadIO)
 \* left identity: Just(x).FlatMap(f) behaves as f(x) (plus the invocation of f itself)
